@@ -164,6 +164,22 @@ class Check:
         return 1 if new else 0
 
 
+def safe(fn, case, *args):
+    """Run a per-case check; an exception escaping from the library under test is a violation of the
+    case at hand (clause `stray-exception`), not a failure of the machinery."""
+    try:
+        return fn(*args)
+    except MemoryError:
+        raise
+    except Exception as ex:
+        tb = traceback.format_exc()
+        inlib = "/src/pyoak/" in tb
+        if not inlib:
+            raise
+        small = case if len(json.dumps(case, default=str)) < 20000 else {"m": case.get("m"), "truncated": True}
+        return [("stray-exception", f"{type(ex).__name__}: {ex} -- " + tb.strip().splitlines()[-3][:160], small)]
+
+
 # ---------------------------------------------------------------------------------------------
 # parallel replay: worker functions are module-level callables `f(chunk, arg) -> result`
 
